@@ -1,6 +1,6 @@
 (* Witnesses on the full world model (Model/Session.v): the scenarios replayed on the real server. *)
 From Coq Require Import List NArith Bool.
-From Gluon Require Import Model.Responders Model.Session.
+From Gluon Require Import Model.Responders Model.Session Proofs.PopProofs.
 Import ListNotations.
 Open Scope N_scope.
 
@@ -72,4 +72,36 @@ Lemma old_policy_loses_flag_change :
   option_map view_flags (old_two_flushes readd_queue readd_snap) = Some [(2, []); (3, [])] /\
   option_map view_flags (new_two_flushes readd_queue readd_snap) = Some [(2, []); (3, [5])] /\
   option_map (fun x => view_flags (fst x)) (run_responders readd_queue readd_snap) = Some [(2, []); (3, [5])].
+Proof. vm_compute. repeat split. Qed.
+
+(* ---------- the repaired defect "a message put back is inserted below a newer, already announced one" ---------- *)
+(* observer's snapshot: message 1 (uid 1); queued, in database order: message 1 removed, put back as uid 2, a new
+   message 9 (uid 3). The client learns UIDs by a probe after the restricted flush. *)
+Definition below_snap : snap := [mkSmsg 1 1 []].
+Definition below_queue : list responder := [RExpunge 1; RExists 1 2 [] false false; RExists 9 3 [] false false].
+Definition below_mirror : mirror := [(Some 1, Some [])].
+
+Definition client_agrees_after (pq : list responder * list responder) : option bool :=
+  let '(p, q) := pq in
+  match run_responders p below_snap with
+  | None => None
+  | Some (s1, o1) =>
+      match msteps below_mirror o1 with
+      | None => None
+      | Some m1 =>
+          match msteps m1 (probe_lines s1) with
+          | None => None
+          | Some m1' =>
+              match run_responders q s1 with
+              | None => None
+              | Some (s2, o2) => match msteps m1' o2 with None => None | Some m2 => Some (agree m2 s2) end
+              end
+          end
+      end
+  end.
+
+Lemma old_policy_shifts_sequence_numbers :
+  client_agrees_after (pop_go_old [] below_queue) = Some false /\
+  client_agrees_after (pop_responders false below_queue) = Some true /\
+  filter is_rexists (fst (pop_go_old [] below_queue)) = [RExists 9 3 [] false false].
 Proof. vm_compute. repeat split. Qed.
